@@ -58,7 +58,7 @@ def in_child(fn):
     return val
 
 
-def _expand_isolated(model, modname, margs, histories, depth) -> dict:
+def _expand_isolated(model, modname, margs, histories, depth, keep_all: bool = False) -> dict:
     succ: Dict[Any, list] = {}
     viols: Dict[str, dict] = {}
     transitions = 0
@@ -93,17 +93,20 @@ def _expand_isolated(model, modname, margs, histories, depth) -> dict:
                                        "case": {"model": modname, "args": margs, "history": h2}, "count": 1}
                 else:
                     old["count"] += 1
-            if c is not None and c not in succ:
+            if c is not None and keep_all:
+                succ[(c, repr(h2))] = h2
+            elif c is not None and c not in succ:
                 succ[c] = h2
-    return {"succ": succ, "viols": list(viols.values()), "transitions": transitions, "outcomes": outcomes}
+    return {"succ": succ, "viols": list(viols.values()), "transitions": transitions, "outcomes": outcomes, "keep_all": keep_all}
 
 
 def _expand(arg) -> dict:
-    modname, margs, histories, depth = arg
+    modname, margs, histories, depth = arg[:4]
+    keep_all = bool(arg[4]) if len(arg) > 4 else False
     mod = importlib.import_module(modname)
     model = mod.make_model(margs)
     if getattr(model, "isolate", False):
-        return _expand_isolated(model, modname, margs, histories, depth)
+        return _expand_isolated(model, modname, margs, histories, depth, keep_all)
     succ: Dict[Any, list] = {}
     viols: Dict[str, dict] = {}
     transitions = 0
@@ -134,13 +137,20 @@ def _expand(arg) -> dict:
                 c = model.canon(impl, ref)
             except Exception as e:
                 raise RuntimeError(f"canon failed after {h2!r}: {type(e).__name__}: {e}") from e
-            if c not in succ:
+            if keep_all:
+                succ[(c, repr(h2))] = h2   # shallow histories are never merged: see bfs(nodedup_depth)
+            elif c not in succ:
                 succ[c] = h2
-    return {"succ": succ, "viols": list(viols.values()), "transitions": transitions, "outcomes": outcomes}
+    return {"succ": succ, "viols": list(viols.values()), "transitions": transitions, "outcomes": outcomes, "keep_all": keep_all}
 
 
-def bfs(ctx, modname: str, margs: Any, max_depth: int, label: str, max_states: int = 2_000_000, chunk: int = 0) -> Dict[str, Any]:
-    """Level-synchronous BFS. Merges counts/violations into ctx. Returns summary."""
+def bfs(ctx, modname: str, margs: Any, max_depth: int, label: str, max_states: int = 2_000_000, chunk: int = 0,
+        nodedup_depth: int = 1) -> Dict[str, Any]:
+    """Level-synchronous BFS. Merges counts/violations into ctx. Returns summary.
+
+    Histories of length <= nodedup_depth are never merged with an equal-looking state: the canonical form only contains what the
+    observers show, and an operation that looks like a no-op (a reset in the initial state, a copy) may still leave the object in a
+    different hidden state (shared dictionaries, aliases). Every operation is therefore also tried after every such short history."""
     import multiprocessing as mp
 
     mod = importlib.import_module(modname)
@@ -149,6 +159,7 @@ def bfs(ctx, modname: str, margs: Any, max_depth: int, label: str, max_states: i
     seen = {model.canon(impl, ref): []}
     frontier: List[list] = [[]]
     total_states, total_trans = 1, 0
+    unmerged = 0
     depth_reached = 0
     capped = None
     sample_hist = None
@@ -158,7 +169,8 @@ def bfs(ctx, modname: str, margs: Any, max_depth: int, label: str, max_states: i
             if not frontier:
                 break
             k = chunk or max(1, min(200, len(frontier) // (ctx.workers * 4) + 1))
-            jobs = [(modname, margs, frontier[i:i + k], depth) for i in range(0, len(frontier), k)]
+            keep_all = depth < nodedup_depth
+            jobs = [(modname, margs, frontier[i:i + k], depth, keep_all) for i in range(0, len(frontier), k)]
             results = pool.imap(_expand, jobs) if pool is not None and len(jobs) > 1 else map(_expand, jobs)
             nxt: List[list] = []
             for r in results:
@@ -168,11 +180,20 @@ def bfs(ctx, modname: str, margs: Any, max_depth: int, label: str, max_states: i
                 for v in r["viols"]:
                     ctx.violation(v["key"], v["what"], v["case"], v["detail"])
                     ctx.viol_count[v["key"]] += v["count"] - 1
+                new_states = 0
                 for c, h in r["succ"].items():
-                    if c not in seen:
+                    if keep_all:
+                        c = c[0]
+                        unmerged += 0 if c not in seen else 1
+                        nxt.append(h)
+                        if c not in seen:
+                            seen[c] = h
+                            new_states += 1
+                    elif c not in seen:
                         seen[c] = h
                         nxt.append(h)
-            total_states += len(nxt)
+                        new_states += 1
+                total_states += new_states
             depth_reached = depth + 1
             frontier = nxt
             if frontier:
@@ -194,7 +215,8 @@ def bfs(ctx, modname: str, margs: Any, max_depth: int, label: str, max_states: i
     if sample_hist is not None and len(ctx.samples) < 12:
         ctx.samples.append({"model": label, "history": jsonable([model.describe(op) for op in sample_hist])})
     p = ctx.parts.setdefault(label, {})
-    p.update({"states": total_states, "transitions": total_trans, "depth": depth_reached, "frontier_left": len(frontier)})
+    p.update({"states": total_states, "transitions": total_trans, "depth": depth_reached, "frontier_left": len(frontier),
+              "histories_kept_although_state_seen": unmerged})
     return {"states": total_states, "transitions": total_trans, "depth": depth_reached}
 
 
